@@ -464,7 +464,7 @@ impl U256Muldiv {
     }
 //@ end
 
-//@ assume U256Muldiv::div: the early cases (zero dividend, dividend shorter than the divisor, both below 2^128) are verified as a segment of the real body (div_cases_012); the single-word-divisor loop and the Knuth algorithm D part (normalisation, div_loop) stay an assumed contract, as does the composition of the segment with the rest
+//@ assume U256Muldiv::div: verified as segments of the real bodies: the early cases (div_cases_012), the single-word-divisor long division (div_case_3), and step D3 of Knuth's algorithm D in div_loop (div_loop_estimate: estimate + correction loop, with the number-theoretic lemmas lemma_d3_first / lemma_d3_lower / lemma_d3_upper that place the corrected estimate in {q, q+1}); still ASSUMED: normalisation (shift_left, carry space), the multiply-subtract and add-back steps D4-D6 of div_loop, the outer loop, the remainder's denormalisation, and the composition of the segments
 //@ fn math/u256_math.rs div in=/^impl U256Muldiv \{/ -> r stub
     requires divisor.view() != 0,
     ensures r.0.view() == self.view() / divisor.view(),
@@ -628,6 +628,137 @@ impl LoHi for u128 {
 //@ fn math/u256_math.rs hi_lo -> r
     ensures r as int == hi as int * Q() + lo as int,
 //@ end
+
+// ------------------------------------------------------------------ Knuth algorithm D, step D3 (quotient-digit estimate and correction) of div_loop
+/// the three leading words of the (n+1)-word dividend window at position `index`, and the two leading divisor words
+pub open spec fn win_hi(index: int, n: int, dividend: U256Muldiv, carry: u64) -> int { if index + n == 4 { carry as int } else { dividend.items[index + n] as int } }
+/// "the estimate qhat with remainder rhat passes Knuth's test": qhat fits a word and qhat * v2 <= rhat * B + u2 (always true once rhat >= B)
+pub open spec fn d3_passes(qhat: int, rhat: int, v2: int, u2: int) -> bool { qhat < Q() && (rhat >= Q() || qhat * v2 <= rhat * Q() + u2) }
+/// D3 of Knuth's algorithm D on the real code: the pair (qhat, rhat) that leaves the correction loop satisfies qhat * v1 + rhat == u0 * B + u1, passes the
+/// two-word test, and was not corrected too far: either it is the first estimate floor((u0*B+u1) / v1), or the pair before the last correction failed the test
+//@ seg math/u256_math.rs div_loop from=/let use_carry = \(index \+ num_divisor_words\) == NUM_WORDS;/ to=/let mut k = 0;/ ret=(qhat,rhat)
+fn div_loop_estimate(index: usize, num_divisor_words: usize, dividend: U256Muldiv, dividend_carry_space: &mut u64, divisor: U256Muldiv) -> (r: (u128, u128))
+    requires 2 <= num_divisor_words <= 4, index + num_divisor_words <= 4,
+        divisor.items[num_divisor_words - 1] as int >= 0x8000_0000_0000_0000,
+        win_hi(index as int, num_divisor_words as int, dividend, *old(dividend_carry_space)) <= divisor.items[num_divisor_words - 1] as int,
+    ensures ({
+        let n = num_divisor_words as int; let v1 = divisor.items[n - 1] as int; let v2 = divisor.items[n - 2] as int;
+        let d0 = win_hi(index as int, n, dividend, *old(dividend_carry_space)) * Q() + dividend.items[index + n - 1] as int; let u2 = dividend.items[index + n - 2] as int;
+        let qhat = r.0 as int; let rhat = r.1 as int;
+        &&& *final(dividend_carry_space) == *old(dividend_carry_space)
+        &&& qhat * v1 + rhat == d0
+        &&& d3_passes(qhat, rhat, v2, u2)
+        &&& (qhat == d0 / v1 || !d3_passes(qhat + 1, rhat - v1, v2, u2)) }),
+//@ loop 0
+        invariant_except_break
+            rhat < 0x1_0000_0000_0000_0000,
+            cmp1 as int == rhat as int * Q() + d0_2 as int, cmp2 as int == qhat as int * d1_2 as int,
+        invariant
+            d1 as int == divisor.items[num_divisor_words - 1] as int, d1 as int >= 0x8000_0000_0000_0000, d1_2 as int == divisor.items[num_divisor_words - 2] as int,
+            d0_2 == dividend.items[index + num_divisor_words - 2],
+            qhat as int * d1 as int + rhat as int == d0 as int, qhat <= 0x1_0000_0000_0000_0001, d0 as int <= d1 as int * Q() + (Q() - 1),
+            qhat as int == d0 as int / d1 as int || !d3_passes(qhat as int + 1, rhat as int - d1 as int, d1_2 as int, d0_2 as int),
+        ensures
+            qhat as int * d1 as int + rhat as int == d0 as int,
+            d3_passes(qhat as int, rhat as int, d1_2 as int, d0_2 as int),
+            qhat as int == d0 as int / d1 as int || !d3_passes(qhat as int + 1, rhat as int - d1 as int, d1_2 as int, d0_2 as int),
+        decreases qhat,
+//@ inject before /let mut qhat = d0 \/ d1;/
+    proof { let q = Q(); let hi = div_hi as int; let u1 = dividend.items[index + num_divisor_words - 1] as int;
+        vstd::arithmetic::div_mod::lemma_fundamental_div_mod(d0 as int, d1 as int); vstd::arithmetic::div_mod::lemma_mod_bound(d0 as int, d1 as int);
+        vstd::arithmetic::div_mod::lemma_div_pos_is_pos(d0 as int, d1 as int);
+        // hi <= v1 and v1 >= B/2: the first estimate is at most B + 1
+        assert(d0 as int / d1 as int <= q + 1) by(nonlinear_arith)
+            requires d0 as int == hi * q + u1, hi <= d1 as int, 0 <= u1 < q, 2 * d1 as int >= q, d0 as int == d1 as int * (d0 as int / d1 as int) + d0 as int % d1 as int, d0 as int % d1 as int >= 0, d1 as int > 0, q > 0;
+        assert(d1 as int * (d0 as int / d1 as int) <= d0 as int);
+        assert(d0 as int <= d1 as int * q + (q - 1)) by(nonlinear_arith) requires d0 as int == hi * q + u1, hi <= d1 as int, u1 < q, q > 0;
+        assert((q + 1) * (q - 1) < q * q) by(nonlinear_arith);
+        assert(d0 as int / d1 as int * (d1_2_spec(divisor, num_divisor_words as int)) < 0x1_0000_0000_0000_0000_0000_0000_0000_0000int) by(nonlinear_arith)
+            requires 0 <= d0 as int / d1 as int <= q + 1, 0 <= d1_2_spec(divisor, num_divisor_words as int) <= q - 1, (q + 1) * (q - 1) < q * q, q * q == 0x1_0000_0000_0000_0000_0000_0000_0000_0000int;
+    }
+//@ inject after /while qhat\.hi\(\) != 0 \|\| cmp2 > cmp1 \{/
+        proof { let q = Q();
+            // the loop condition says that (qhat, rhat) fails the test, and qhat > 0
+            assert(qhat as int / q != 0 <==> qhat as int >= q) by { vstd::arithmetic::div_mod::lemma_fundamental_div_mod(qhat as int, q); vstd::arithmetic::div_mod::lemma_mod_bound(qhat as int, q);
+                if qhat as int >= q { vstd::arithmetic::div_mod::lemma_div_is_ordered(q, qhat as int, q); vstd::arithmetic::div_mod::lemma_div_by_self(q); } else { vstd::arithmetic::div_mod::lemma_basic_div(qhat as int, q); } }
+            assert(!d3_passes(qhat as int, rhat as int, d1_2 as int, d0_2 as int));
+            assert(qhat >= 1) by { if qhat == 0 { assert(0 * d1_2 as int == 0) by(nonlinear_arith); } }
+            assert((qhat as int - 1) * d1 as int + (rhat as int + d1 as int) == d0 as int) by(nonlinear_arith) requires qhat as int * d1 as int + rhat as int == d0 as int;
+            assert((qhat as int - 1) * d1_2 as int == qhat as int * d1_2 as int - d1_2 as int) by(nonlinear_arith);
+            assert(qhat as int * d1_2 as int >= d1_2 as int) by(nonlinear_arith) requires qhat as int >= 1, d1_2 as int >= 0;
+        }
+//@ inject before /^\s*break;/
+            proof { let q = Q();
+                assert(rhat as int / q != 0 ==> rhat as int >= q) by { if (rhat as int) < q { vstd::arithmetic::div_mod::lemma_basic_div(rhat as int, q); } }
+                assert((qhat as int) < q) by(nonlinear_arith) requires qhat as int * d1 as int + rhat as int == d0 as int, d0 as int <= d1 as int * q + (q - 1), rhat as int >= q, d1 as int >= 1, qhat as int >= 0;
+            }
+//@ inject after /^\s*qhat -= 1;/
+        let ghost c_old = cmp1;
+        proof { let q = Q(); let r0 = rhat as int;
+            // the low word of cmp1 is u2
+            vstd::arithmetic::div_mod::lemma_mod_multiples_vanish(r0, d0_2 as int, q); vstd::arithmetic::div_mod::lemma_small_mod(d0_2 as nat, q as nat);
+            assert(q * r0 + d0_2 as int == r0 * q + d0_2 as int) by(nonlinear_arith);
+            assert(c_old as int % q == d0_2 as int);
+        }
+//@ inject before /^\s*cmp2 -= d1_2;/
+        proof { let q = Q();
+            assert(rhat as int / q == 0 ==> (rhat as int) < q) by { vstd::arithmetic::div_mod::lemma_fundamental_div_mod(rhat as int, q); vstd::arithmetic::div_mod::lemma_mod_bound(rhat as int, q); }
+            vstd::arithmetic::div_mod::lemma_small_mod(rhat as nat, q as nat);
+        }
+//@ end
+pub open spec fn d1_2_spec(divisor: U256Muldiv, n: int) -> int { divisor.items[n - 2] as int }
+
+/// Knuth 4.3.1: what the D3 postcondition means for the true quotient digit. U is the (n+1)-word window, V the normalised n-word divisor (n >= 2), written with
+/// their two resp. three leading words and a tail below them (m = n - 2 further words): U = (d0 * B + u2) * M + ut, V = (v1 * B + v2) * M + vt, 0 <= ut, vt < M.
+/// If (qhat, rhat) with qhat * v1 + rhat == d0 passes the test then (qhat - 1) * V <= U, i.e. the true digit is at least qhat - 1
+pub proof fn lemma_d3_upper(qhat: int, rhat: int, d0: int, v1: int, v2: int, u2: int, m: int, ut: int, vt: int)
+    requires m >= 1, 0 <= ut < m, 0 <= vt < m, 0 <= v2 < Q(), 0 <= u2 < Q(), v1 >= 1, rhat >= 0, 0 <= qhat, qhat * v1 + rhat == d0, d3_passes(qhat, rhat, v2, u2),
+    ensures (qhat - 1) * ((v1 * Q() + v2) * m + vt) <= (d0 * Q() + u2) * m + ut,
+{
+    let b = Q();
+    if qhat >= 1 {
+        // qhat * v2 <= rhat * B + u2 holds in both cases of the test
+        assert(qhat * v2 <= rhat * b + u2) by(nonlinear_arith) requires qhat < b, 0 <= v2 < b, rhat >= b || qhat * v2 <= rhat * b + u2, u2 >= 0, qhat >= 0;
+        assert((qhat - 1) * (v1 * b + v2 + 1) <= d0 * b + u2) by(nonlinear_arith)
+            requires qhat * v1 + rhat == d0, qhat * v2 <= rhat * b + u2, 1 <= qhat < b, v1 >= 1, v2 >= 0, b >= 1;
+        assert((qhat - 1) * ((v1 * b + v2) * m + vt) <= (qhat - 1) * (v1 * b + v2 + 1) * m) by(nonlinear_arith) requires qhat >= 1, 0 <= vt < m, m >= 1;
+        assert((qhat - 1) * (v1 * b + v2 + 1) * m <= (d0 * b + u2) * m) by(nonlinear_arith) requires (qhat - 1) * (v1 * b + v2 + 1) <= d0 * b + u2, m >= 1;
+    } else {
+        assert((qhat - 1) * ((v1 * b + v2) * m + vt) <= 0) by(nonlinear_arith) requires qhat == 0, v1 >= 1, v2 >= 0, b >= 1, m >= 1, vt >= 0;
+        assert((d0 * b + u2) * m + ut >= 0) by(nonlinear_arith) requires d0 >= 0, b >= 1, u2 >= 0, m >= 1, ut >= 0, d0 == qhat * v1 + rhat, qhat == 0, rhat >= 0;
+    }
+}
+/// if a pair FAILS the test then qhat * V > U, i.e. the true digit is below qhat: a correction is never one too many (needs the window bound U < V * B only through qhat >= B)
+pub proof fn lemma_d3_lower(qhat: int, rhat: int, d0: int, v1: int, v2: int, u2: int, m: int, ut: int, vt: int)
+    requires m >= 1, 0 <= ut < m, 0 <= vt < m, 0 <= v2 < Q(), 0 <= u2 < Q(), v1 >= 1, 0 <= rhat < Q(), qhat >= 0, qhat * v1 + rhat == d0, !d3_passes(qhat, rhat, v2, u2),
+        // the window is below V * B
+        (d0 * Q() + u2) * m + ut < ((v1 * Q() + v2) * m + vt) * Q(),
+    ensures qhat * ((v1 * Q() + v2) * m + vt) > (d0 * Q() + u2) * m + ut,
+{
+    let b = Q(); let v = (v1 * b + v2) * m + vt; let u = (d0 * b + u2) * m + ut;
+    if qhat >= b {
+        assert(qhat * v >= v * b) by(nonlinear_arith) requires qhat >= b, v >= 0;
+    } else {
+        assert(qhat * v2 > rhat * b + u2);
+        assert(qhat * (v1 * b + v2) >= d0 * b + u2 + 1) by(nonlinear_arith) requires qhat * v1 + rhat == d0, qhat * v2 >= rhat * b + u2 + 1;
+        assert(qhat * v >= qhat * (v1 * b + v2) * m) by(nonlinear_arith) requires qhat >= 0, vt >= 0, v == (v1 * b + v2) * m + vt;
+        assert(qhat * (v1 * b + v2) * m >= (d0 * b + u2 + 1) * m) by(nonlinear_arith) requires qhat * (v1 * b + v2) >= d0 * b + u2 + 1, m >= 1;
+        assert((d0 * b + u2 + 1) * m > u) by(nonlinear_arith) requires u == (d0 * b + u2) * m + ut, ut < m;
+    }
+}
+/// Knuth Theorem A for the uncorrected estimate: floor(d0 / v1) is not below the true digit
+pub proof fn lemma_d3_first(d0: int, v1: int, v2: int, u2: int, m: int, ut: int, vt: int, q: int)
+    requires m >= 1, 0 <= ut < m, 0 <= vt, 0 <= v2, 0 <= u2 < Q(), v1 >= 1, d0 >= 0, q >= 0, q * ((v1 * Q() + v2) * m + vt) <= (d0 * Q() + u2) * m + ut,
+    ensures q <= d0 / v1,
+{
+    let b = Q();
+    // q * v1 * B * m <= U < (d0 * B + B) * m  ==>  q * v1 < d0 + 1
+    assert(q * (v1 * b) * m <= q * ((v1 * b + v2) * m + vt)) by(nonlinear_arith) requires q >= 0, v2 >= 0, vt >= 0, m >= 1, b >= 1, v1 >= 1;
+    assert((d0 * b + u2) * m + ut < (d0 + 1) * b * m) by(nonlinear_arith) requires u2 < b, ut < m, m >= 1, u2 >= 0;
+    assert(q * v1 < d0 + 1) by(nonlinear_arith) requires q * (v1 * b) * m < (d0 + 1) * b * m, b >= 1, m >= 1;
+    vstd::arithmetic::div_mod::lemma_fundamental_div_mod(d0, v1); vstd::arithmetic::div_mod::lemma_mod_bound(d0, v1);
+    assert(q <= d0 / v1) by(nonlinear_arith) requires q * v1 <= d0, d0 == v1 * (d0 / v1) + d0 % v1, d0 % v1 < v1, v1 >= 1;
+}
 
 //@ fn math/u256_math.rs mul_u256 -> r
     ensures r.view() == v as int * n as int,
